@@ -13,6 +13,7 @@ mod c08;
 mod proc;
 mod c11;
 mod c16;
+mod c17;
 mod cfggen;
 mod unicode_c;
 
@@ -28,6 +29,7 @@ fn property(id: &str) -> Option<Property> {
         "C08" => c08::property(),
         "C11" => c11::property(),
         "C16" => c16::property(),
+        "C17" => c17::property(),
         _ => return None,
     })
 }
